@@ -76,6 +76,17 @@ pub fn run(cfg: &RunCfg, plan: &ConcPlan) -> Report {
 					index: i,
 					log: tail(&res.log),
 				});
+				if program_desc(&prog).contains("retry") || program_desc(&prog).contains("Retry") {
+					rep.violations.push(VRec {
+						prop: "C09".into(),
+						rule: "retrying_acquisition_did_not_complete".into(),
+						detail: format!("step budget {}+{} exhausted in a program with retrying acquisitions", ec.budget1, ec.budget2),
+						signature: "C09:retrying_acquisition_did_not_complete".into(),
+						case: program_desc(&prog),
+						index: i,
+						log: tail(&res.log),
+					});
+				}
 			}
 			Some(Abort::Deadlock) | Some(Abort::SelfWait) => rep.count("episodes_deadlocked", 1),
 			Some(Abort::Harness(m)) => rep.inconclusive.push(format!("item {i}: harness abort: {m}")),
